@@ -417,19 +417,19 @@ class AhocorasickTokenizer(Tokenizer):
         """Set up helpers to narrow down possible extractors."""
         # Build a set of all extractors that don't list required strings
         self.unfiltered_extractors = set(
-            e for e in EXTRACTORS if not e.strings
+            e for e in self.extractors if not e.strings
         )
         # Build a pyahocorasick filter for all case-sensitive extractors
         self.case_sensitive_filter = self.make_ahocorasick_filter(
             (s, e)
-            for e in EXTRACTORS
+            for e in self.extractors
             if e.strings and not e.flags & re.I
             for s in e.strings
         )
         # Build a pyahocorasick filter for all case-insensitive extractors
         self.case_insensitive_filter = self.make_ahocorasick_filter(
             (s.lower(), e)
-            for e in EXTRACTORS
+            for e in self.extractors
             if e.strings and e.flags & re.I
             for s in e.strings
         )
@@ -438,16 +438,20 @@ class AhocorasickTokenizer(Tokenizer):
         """Override get_extractors() to filter out extractors
         that can't possibly match."""
         unique_extractors = set(self.unfiltered_extractors)
-        for _, extractors in self.case_sensitive_filter.iter(text):
-            unique_extractors.update(extractors)
-        for _, extractors in self.case_insensitive_filter.iter(text.lower()):
-            unique_extractors.update(extractors)
+        if self.case_sensitive_filter is not None:
+            for _, extractors in self.case_sensitive_filter.iter(text):
+                unique_extractors.update(extractors)
+        if self.case_insensitive_filter is not None:
+            for _, extractors in self.case_insensitive_filter.iter(
+                text.lower()
+            ):
+                unique_extractors.update(extractors)
         return unique_extractors
 
     @staticmethod
     def make_ahocorasick_filter(
         items: Iterable[Sequence[Any]],
-    ) -> ahocorasick.Automaton:
+    ) -> Optional[ahocorasick.Automaton]:
         """Given a list of items like
             [['see', stop_word_extractor],
              ['see', another_extractor],
@@ -460,6 +464,10 @@ class AhocorasickTokenizer(Tokenizer):
         grouped = defaultdict(list)
         for string, extractor in items:
             grouped[string].append(extractor)
+
+        if not grouped:
+            # an automaton without words cannot be searched
+            return None
 
         text_filter = ahocorasick.Automaton()
         for string, extractors in grouped.items():
